@@ -30,7 +30,13 @@ def wopt_code(version=None, wrap=None, fmt="%.5f", column_fmt=None, len_numeric_
 
 
 # ops: ("R", rkw) | ("W", wkw) | ("EN",) | ("ES", j, [tokens]) | ("EV", sect_letter, mnemonic, text)
+#      | ("ED", j)  delete curve j   | ("EB", [(mnemonic, unit, [tokens]), ...])  a LASFile built from scratch with these curves
+#        (ED / EB: additions for C16; the Coq side knows them only once Corr/WriteShow.v has been extended)
 def op_code(op):
+    if op[0] == "ED":
+        return "ED" + str(op[1])
+    if op[0] == "EB":
+        return "EB" + "".join(IS + IS2.join([c[0], c[1]] + list(c[2])) for c in op[1])
     if op[0] == "R":
         return "R" + rm.opt_code(**op[1])
     if op[0] == "W":
@@ -52,6 +58,20 @@ def tocell(t):
         return float(np.float64(t))
     except ValueError:
         return t
+
+
+def build_scratch(curves):
+    """lasio.LASFile() + append_curve for every (mnemonic, unit, tokens)"""
+    import lasio
+    las = lasio.LASFile()
+    for m, u, toks in curves:
+        vals = [tocell(t) for t in toks]
+        if all(isinstance(v, float) for v in vals):
+            data = np.array(vals, dtype=float)
+        else:
+            data = np.array([str(v) if not isinstance(v, str) else v for v in vals])
+        las.append_curve(m, data, unit=u)
+    return las
 
 
 def run_impl(text, ops):
@@ -95,6 +115,12 @@ def run_impl(text, ops):
             out += cur + RS + RS
         elif op[0] == "EN":
             las.index_initial = None
+        elif op[0] == "ED":
+            del las.curves[op[1]]
+        elif op[0] == "EB":
+            las = build_scratch(op[1])
+            for c in op[1]:
+                extra_tokens |= set(c[2])
         elif op[0] == "ES":
             vals = [tocell(t) for t in op[2]]
             extra_tokens |= set(op[2])
